@@ -19,5 +19,10 @@ def run(chk, replay=None):
     thorough = chk.tier == "thorough"
     fqlib.model_checks(chk, ("safety", "liveness", "mutants", "reach"))
     fqlib.run_fq(chk, ("C06/",), nsim=3000 if thorough else 400, nstarve=400 if thorough else 60, nrand=2000 if thorough else 300)
-    import dlvlib
+    import dlvlib, random
+    bs = dlvlib.burst_scripts(random.Random(chk.seed * 17 + 3), 40 if thorough else 6, 700000)
+    for s_ in bs: chk.case(("burst", s_["sock"], s_["scen"]))
+    chk.sample({"kind": "socket-level burst", "sock": bs[0]["sock"], "ops": [o["op"] for o in bs[0]["ops"][:8]], "len": len(bs[0]["ops"])})
+    v = dlvlib.run_scripts(chk, bs, "c06-burst")
+    dlvlib.report(chk, v, bs, ("C06/",), "socket-level burst")
     dlvlib.flood(chk, ("C06/",), nper=12 if thorough else 2, clients=6 if thorough else 4, msgs=300 if thorough else 60)
